@@ -246,7 +246,7 @@ Proof.
   - apply caller_start_inv, I.
   - apply caller_timer_inv, I.
   - apply caller_wake_inv, I.
-  - destruct e as [k|p| |]; [exact I|apply pkt_rcvd_inv, I|apply conn_inv, I|apply conn_inv, I].
+  - destruct e as [k|p| | |d]; [exact I|apply pkt_rcvd_inv, I|apply conn_inv, I|apply conn_inv, I|exact I].
 Qed.
 
 Lemma boundary_cx lifo w w' : boundary lifo w = Some w' -> cx w' = cx w.
